@@ -195,6 +195,7 @@ class USBDevice(object):
         self.kernel_driver = kernel_driver
         self.release_error = False
         self.close_error = False
+        self.serial_error = False
         self.errors = {}            # index among bulk transfers -> exception class
         eps = [USBEndpoint(EP_IN), USBEndpoint(EP_OUT)]
         self.settings = [USBInterfaceSetting(0, 0x08, 0x06, 0x50, [USBEndpoint(0x82), USBEndpoint(0x02)])]
@@ -211,6 +212,8 @@ class USBDevice(object):
         return list(self.ports)
 
     def getSerialNumber(self):
+        if self.serial_error:
+            raise USBErrorNoDevice()        # an unplugged device: every libusb call reports LIBUSB_ERROR_NO_DEVICE
         return self.serial
 
     def iterSettings(self):
